@@ -66,10 +66,16 @@ HEADER = ('From Coq Require Import List NArith. Import ListNotations.\n'
 
 def run_model(hists, tag):
     """Returns {case index: first differing step}."""
-    nshard = 16
-    shards = [[] for _ in range(nshard)]
+    # shards of bounded SIZE (operations, not histories): one coqc holds every snapshot of its shard in memory
+    shards, cur, cur_ops = [], [], 0
     for i, h in enumerate(hists):
-        shards[i % nshard].append((i, h))
+        cur.append((i, h))
+        cur_ops += len(h['ops'])
+        if cur_ops >= 2500:
+            shards.append(cur)
+            cur, cur_ops = [], 0
+    if cur:
+        shards.append(cur)
     jobs = []
     for si, sh_ in enumerate(shards):
         if not sh_:
@@ -122,7 +128,7 @@ def run(tier, seed, replay=None):
         rc, out = vh(['heap-run', 'replay', replay])
         hists = [json.loads(l) for l in out.splitlines() if l.startswith('{')]
     else:
-        count, maxlen = (1500, 40) if tier == 'quick' else (20000, 120)
+        count, maxlen = (1500, 40) if tier == 'quick' else (8000, 120)
         hists = []
         corpus = os.path.join('/verif/corpus', 'C17')
         if os.path.isdir(corpus):
